@@ -60,6 +60,8 @@ type Run struct {
 	Deadline  time.Time // internal budget; passing it ends enumeration with exhaustive=false
 	Replaying bool
 	Args      []string
+	// ChildGOMAXPROCS is the GOMAXPROCS of shard children (default 2; the cooperative scheduler wants 1)
+	ChildGOMAXPROCS int
 
 	evals      int64
 	traces     int64
